@@ -1,4 +1,4 @@
-(* Stages B-F, part 1: Compiler.compile_program on programs over variables emits exactly [pcode]: one global slot per
+(* Stages B-G, part 1: Compiler.compile_program on programs over variables emits exactly [pcode]: one global slot per
    declaration in program-text order (whatever block it is in), one block table per branch / loop / loop body, jumps, the
    placeholders of break / continue patched by the enclosing loop, the PopTop / Nil glue between statements.
    The symbol tables are described by an invariant ([chain]): from the current table up to the root every table is an
@@ -378,6 +378,14 @@ Section Names.
           let jb := nlen inner in
           ret (patch 0 (jb + 2) jb inner ++ I [opJumpBackward; jb; opNop]))))))).
   Proof. destruct e; reflexivity. Qed.
+  (* compileSimpleFor *)
+  Lemma compile_NFor_plain f body : compile (S f) (NFor None None None body) =
+    bind open_block (fun _ => bind (push_loop false) (fun _ =>
+      bind (cblock f body) (fun b => bind pop_loop (fun _ => bind close_block (fun _ =>
+        let c := b ++ I [opPopTop] in
+        let jb := nlen c in
+        ret (patch 0 (jb + 2) jb c ++ I [opJumpBackward; jb; opNop])))))).
+  Proof. reflexivity. Qed.
   (* the three-clause loop *)
   Lemma compile_NFor3 f c i p body : compile (S f) (NFor (Some c) (Some i) (Some p) body) =
     bind open_block (fun _ => bind (push_loop false) (fun _ =>
@@ -508,7 +516,7 @@ Section Names.
     induction f as [f IH] using lt_wf_ind.
     intros s k tabs t l rest ks loops lp Hh Hk Hwf Hlp Hc.
     set (ch := (t, l) :: rest) in *. set (scope := flat ch) in *.
-    destruct s as [e|i e|i o e|i up|e|c tb eb|c tb|c b|e c p b| |].
+    destruct s as [e|i e|i o e|i up|e|c tb eb|c tb|c b|b|e c p b| |].
     - (* x := e *)
       cbn [embed_stmt stmt_code nd wf_stmt sheight dl] in *.
       rewrite compile_NVar.
@@ -607,6 +615,25 @@ Section Names.
       cbv zeta. unfold ret.
       replace (nlen cb + 2 + 1 + 2 + 1)%N with (nlen cb + 6)%N by lia.
       rewrite <- !app_assoc. reflexivity.
+    - (* for { b } *)
+      rewrite wf_SLoop in Hwf. rename Hwf into Hwb.
+      rewrite sheight_SLoop in Hh. destruct f as [|f]; [lia|]. rewrite nd_SLoop in *. cbn [dl]. rewrite app_nil_r.
+      assert (Hst : stmt_ok f) by (apply IH; lia).
+      rewrite embed_SLoop, code_SLoop, compile_NFor_plain.
+      destruct (open_block_good k tabs ch t l rest ks loops Hc eq_refl) as [tabs1 [Ho Hc1]].
+      assert (Hfl : flat ((length tabs, []) :: ch) = scope) by (rewrite (flat_cons (length tabs)), app_nil_r; reflexivity).
+      assert (Hlp' : loops_ok true ((false, 0) :: loops)) by (intros _; eexists; reflexivity).
+      assert (Hwb' : wf_stmts true (length (flat ((length tabs, []) :: ch))) b = true) by (rewrite Hfl; exact Hwb).
+      destruct (cblock_good f Hst b k tabs1 (length tabs) [] ch ks ((false, 0) :: loops) true ltac:(lia) ltac:(lia) Hwb' Hlp' Hc1)
+        as [tabs2 [Hc2 Hcv2]].
+      rewrite Hfl in Hc2.
+      destruct (block_code k scope (length ks) b) as [cb kb] eqn:Eb. cbn [fst snd] in Hc2.
+      destruct (close_block_to (k + ndecls b) tabs2 (length tabs) [] t l rest (ks ++ kb) loops Hcv2) as [Hcl Hcv3].
+      exists tabs2. split; [|exact Hcv3].
+      unfold bind at 1. rewrite Ho. unfold bind at 1. rewrite push_loop_mkst.
+      unfold bind at 1. rewrite Hc2. unfold bind at 1. rewrite pop_loop_mkst.
+      unfold bind at 1. rewrite Hcl.
+      cbv zeta. unfold ret. reflexivity.
     - (* for x := e; c; p { b } *)
       rewrite wf_SFor in Hwf. apply andb_true_iff in Hwf. destruct Hwf as [Hwf Hwb].
       apply andb_true_iff in Hwf. destruct Hwf as [Hwf Hwp]. apply andb_true_iff in Hwf. destruct Hwf as [Hwf Hsp].
@@ -682,7 +709,7 @@ Section Names.
   Proof.
     unfold collect_decls. induction l as [|s r IH]; intros k scope; [reflexivity|].
     rewrite embed_stmts_cons.
-    destruct s as [e|i e|i o e|i up|e|c t e|c t|c b|e0 c p b| |]; cbn [embed_stmt]; try apply IH.
+    destruct s as [e|i e|i o e|i up|e|c t e|c t|c b|b|e0 c p b| |]; cbn [embed_stmt]; try apply IH.
     destruct e; cbn [embed]; apply IH.
   Qed.
 
